@@ -103,10 +103,19 @@ where
                         if text_element_type == TextElementType::NonBlank {
                             last_non_blank = Some(elements.len());
                         }
+                        // A whitespace-only line contributes only its line break.
+                        let (element_start, element_indent) = if text_element_role
+                            == TextElementPosition::LineStart
+                            && text_element_type == TextElementType::Blank
+                        {
+                            (end - 1, 0)
+                        } else {
+                            (slice_start, indent)
+                        };
                         elements.push(PatternElementPlaceholders::TextElement(
-                            slice_start,
+                            element_start,
                             end,
-                            indent,
+                            element_indent,
                             text_element_role,
                         ));
                     }
